@@ -54,8 +54,14 @@ template<int K, LieGroup G>
 template<typename S>
 CastT<S, G> BSpline<K, G>::operator()(const S & t, OptTangent<CastT<S, G>> vel, OptTangent<CastT<S, G>> acc) const
 {
-  // index of relevant interval
-  int64_t istar = static_cast<int64_t>((static_cast<double>(t) - m_t0) / m_dt);
+  // index of relevant interval (saturated: the conversion to int64_t is undefined outside its range)
+  const double tt = (static_cast<double>(t) - m_t0) / m_dt;
+  int64_t istar   = static_cast<int64_t>(m_ctrl_pts.size());
+  if (tt < 0.) {
+    istar = -1;
+  } else if (tt < static_cast<double>(m_ctrl_pts.size())) {
+    istar = static_cast<int64_t>(tt);
+  }
 
   S u;
   // clamp to end of range if necessary
